@@ -891,11 +891,14 @@ class PyCdlib:
         splitpath = utils.split_path(joliet_path)
         name = splitpath.pop()
 
-        if len(name) > 64:
+        # The limit is 64 16-bit characters of the recorded (UCS-2/UTF-16) name,
+        # not 64 bytes of the UTF-8 form that the path is passed around in.
+        joliet_name = name.decode('utf-8').encode('utf-16_be')
+        if len(joliet_name) > 2 * 64:
             raise pycdlibexception.PyCdlibInvalidInput('Joliet names can be a maximum of 64 characters')
         parent = self._find_joliet_record(b'/' + b'/'.join(splitpath))
 
-        return (name.decode('utf-8').encode('utf-16_be'), parent)
+        return (joliet_name, parent)
 
     def _udf_name_and_parent_from_path(self, udf_path):
         # type: (bytes) -> Tuple[bytes, udfmod.UDFFileEntry]
